@@ -44,8 +44,9 @@ Definition wfc_init (n : nat) : wfc := mkW false false false [] false (repeat TI
 
 Definition is_pending (st : fstate) : bool := match st with FPending => true | _ => false end.
 Definition mem_fid (f : fid) (l : list fid) : bool := existsb (Nat.eqb f) l.
-Definition remove_fid (f : fid) (l : list fid) : list fid :=
-  (fix go (l : list fid) := match l with [] => [] | x :: r => if Nat.eqb f x then r else x :: go r end) l.
+(* deque.remove(x): removes the first occurrence *)
+Fixpoint remove_fid (f : fid) (l : list fid) : list fid :=
+  match l with [] => [] | x :: r => if Nat.eqb f x then r else x :: remove_fid f r end.
 
 Fixpoint upd {X} (n : nat) (x : X) (l : list X) : list X :=
   match l, n with
@@ -164,8 +165,9 @@ Fixpoint wfc_run (s : wfc) (ls : list wlabel) : option wfc :=
                        the kernel, which takes k bytes)
      ASendTo t n ok  : datagram: t calls sendto(n bytes) + drain; the kernel takes the datagram (ok) or would block
      AReady k        : the socket is writable: the kernel takes k more bytes of the buffer
-     ALost exc       : the transport dies: buffer dropped, connection_lost(exc) delivered
-     AClose          : transport.close() (is_closing() becomes true)
+     AKill           : the transport dies (_force_close / abort): buffer dropped, later writes dropped, is_closing()
+     AClose          : transport.close(): is_closing(); dead at once if nothing is buffered
+     ALost exc       : protocol.connection_lost(exc) is delivered (only once the transport is dead)
      ACancel / ACallback / AWake as in part 1                                                                     *)
 
 Record tcfg := mkCfg { c_high : nat; c_low : nat; c_wl_pauses : bool }.
@@ -214,10 +216,12 @@ Definition tr_write (t : tid) (n k : nat) (a : ad) : ad :=
        | b => maybe_pause (with_buf (b ++ [(t, n)]) a)
        end.
 
-(* transport.writelines(chunks) *)
+(* transport.writelines(chunks): buffer.extend; _write_ready() (sendmsg: BlockingIOError = nothing taken, and then
+   no _maybe_resume_protocol); [_maybe_pause_protocol() only on interpreters that have it] *)
 Definition tr_writelines (t : tid) (n k : nat) (a : ad) : ad :=
   if a_dead a || (n =? 0) then a
-  else let a1 := maybe_resume (with_buf (take k (a_buf a ++ [(t, n)])) a) in
+  else let b := a_buf a ++ [(t, n)] in
+       let a1 := if k =? 0 then with_buf b a else maybe_resume (with_buf (take k b) a) in
        if c_wl_pauses (a_cfg a) then maybe_pause a1 else a1.
 
 (* DatagramTransport.sendto(data) *)
@@ -230,11 +234,13 @@ Definition tr_sendto (t : tid) (n : nat) (ok : bool) (a : ad) : ad :=
 
 Inductive alabel :=
 | ASend (t : tid) (n k : nat) | ASendIter (t : tid) (n k : nat) | ASendTo (t : tid) (n : nat) (ok : bool)
-| AReady (k : nat) | ALost (exc : bool) | AClose
+| AReady (k : nat) | AKill | AClose | ALost (exc : bool)
 | ACancel (t : tid) | ACallback (f : fid) | AWake (t : tid).
 
 Definition lift (a : ad) (r : option (wfc * list wobs)) : option (ad * list wobs) :=
   match r with Some (w, o) => Some (with_w w a, o) | None => None end.
+
+Definition set_dead (a : ad) : ad := mkAd (a_cfg a) (a_buf a) (a_ppaused a) true (a_w a).
 
 Definition ad_step (a : ad) (l : alabel) : option (ad * list wobs) :=
   match l with
@@ -254,14 +260,30 @@ Definition ad_step (a : ad) (l : alabel) : option (ad * list wobs) :=
       | _ => None
       end
   | AReady k =>
+      (* the socket is writable; the kernel takes k bytes.  Flushing the last byte of a closing transport delivers
+         connection_lost(None) at once. *)
       match a_buf a with
       | [] => None
-      | b => if (0 <? k) && (k <=? buf_size b) then Some (maybe_resume (with_buf (take k b) a), []) else None
+      | b =>
+          if (0 <? k) && (k <=? buf_size b) then
+            let a1 := maybe_resume (with_buf (take k b) a) in
+            match a_buf a1 with
+            | [] => if w_closing (a_w a1)
+                    then Some (set_dead (with_w (wfc_lost false (a_w a1)) a1), [])
+                    else Some (a1, [])
+            | _ => Some (a1, [])
+            end
+          else None
       end
-  | ALost e =>
+  | AKill =>      (* transport._force_close(exc) / abort(): buffer dropped, later writes dropped, is_closing() *)
       if a_dead a then None
-      else Some (mkAd (a_cfg a) [] (a_ppaused a) true (wfc_closing true (wfc_lost e (a_w a))), [])
-  | AClose => Some (with_w (wfc_closing true (a_w a)) a, [])
+      else Some (mkAd (a_cfg a) [] (a_ppaused a) true (wfc_closing true (a_w a)), [])
+  | AClose =>     (* transport.close() *)
+      if w_closing (a_w a) then None
+      else let a1 := with_w (wfc_closing true (a_w a)) a in
+           Some (match a_buf a with [] => set_dead a1 | _ => a1 end, [])
+  | ALost e =>    (* protocol.connection_lost(exc), scheduled by the transport once it is dead *)
+      if a_dead a && negb (w_lost (a_w a)) then Some (with_w (wfc_lost e (a_w a)) a, []) else None
   | ACancel t => lift a (wfc_step (a_w a) (WCancel t))
   | ACallback f => lift a (wfc_step (a_w a) (WCallback f))
   | AWake t => lift a (wfc_step (a_w a) (WWake t))
